@@ -317,6 +317,18 @@ def check_pairwise(ctx):
     ctx.decide(ok0 and okl and oksym, "SYMM", site, (fi, stores[0]) if stores else fi,
                "matrix starts as zeros and every pair i<j is written to both [i,j] and [j,i]: symmetric with zero diagonal",
                "the matrix is not (zeros(n,n); for i<j: D[i,j] = D[j,i] = d): symmetry or the zero diagonal is lost")
+    # ---- every pair is written: no pair is skipped by a test on measured values (`if dist == 0: continue` leaves the entry of two
+    # coinciding centres at 0 although their surface distance is −(r1 + r2))
+    if stores and loops:
+        si_ = stmt_index(fv)
+        innermost = loops[-1] if len(loops) == 1 else inner_l
+        skips = [x for x in ast.walk(innermost) if isinstance(x, (ast.Continue, ast.Break))]
+        g_ = [t for st_ in stores for t, _p in si_.effective_guards(st_) if any(y is t for y in ast.walk(innermost))]
+        bad_ = skips[0] if skips else None
+        ctx.decide(not skips and not g_, "SYMM", site + ":every-pair", (fi, bad_) if bad_ is not None else ((fi, stores[0]) if not g_ else (fi, g_[0])),
+                   "the entry of every pair i<j is written unconditionally",
+                   f"some pairs are not written (`{U(g_[0])[:50] if g_ else 'continue/break in the pair loop'}`): their entry keeps the initial 0 — for coinciding centres with "
+                   "subtract_radius=True the matrix says 0 where the surface distance is −(r1 + r2), so overlaps() and the matrix disagree and remove_overlapping keeps concentric droplets")
     # ---- the distance itself
     if stores and iv is not None:
         s0 = stores[0]
